@@ -19,6 +19,7 @@ mod psim;
 mod qsim;
 mod report;
 mod rng;
+mod sched;
 mod svc;
 
 use std::collections::BTreeMap;
@@ -137,6 +138,8 @@ fn check(prop: &'static str, tier: Tier) -> i32 {
         }
         unknown += 1;
         let (min, tries) = minimise(&case, prop, clause, 400);
+        // multi-threaded scenarios: pin the recorded (and shortened) scheduler choice list
+        let min = cases::pin_schedule(&min, clause);
         let r = eval(&min);
         let mv = r
             .violations
